@@ -308,6 +308,7 @@ impl Stats {
 // parallel sweep over 0..n
 
 /// Runs `f(range, &mut stats)` over `0..n` split into chunks, on THREADS threads. Chunks
+/// (see `stress` below for the concurrent-history driver)
 /// whose start lies after the smallest failing index seen so far are skipped, so the
 /// reported failure is the smallest failing index regardless of scheduling. `f` must
 /// record failures with `order` = the failing index.
@@ -702,5 +703,68 @@ pub fn run_replays(prop: &str, st: &mut Stats, eval: &dyn Fn(&Case) -> Verdict) 
         };
         st.sample(k as u64, || json!({"replay": name, "case": case.to_json()}));
         st.verdict(verdict, k as u64, || case.clone());
+    }
+}
+
+/// Concurrent histories: `threads` threads start together (barrier) and each performs `iters`
+/// steps of `step(thread, &mut rng)`. Every thread draws from its own PRNG (seed ^ thread), so
+/// the *work* is a pure function of the seed; only the interleaving is left to the scheduler.
+/// Used to hit state the library might share between calls (memo tables, caches). Returns the
+/// number of steps performed, or the first failure message.
+pub fn stress<F>(seed: u64, threads: usize, iters: u64, step: F) -> Result<u64, String>
+where
+    F: Fn(usize, &mut SplitMix) -> Result<(), String> + Sync,
+{
+    let start = std::sync::Barrier::new(threads);
+    let stop = std::sync::atomic::AtomicBool::new(false);
+    let results: Vec<Result<u64, String>> = std::thread::scope(|sc| {
+        let hs: Vec<_> = (0..threads)
+            .map(|t| {
+                let (start, stop, step) = (&start, &stop, &step);
+                sc.spawn(move || -> Result<u64, String> {
+                    let mut sm = SplitMix(seed ^ mix64(0x57e55 ^ t as u64));
+                    let mut done = 0u64;
+                    start.wait();
+                    for _ in 0..iters {
+                        if stop.load(Ordering::Relaxed) {
+                            break;
+                        }
+                        match guarded(|| step(t, &mut sm)) {
+                            Ok(Ok(())) => done += 1,
+                            Ok(Err(m)) | Err(m) => {
+                                stop.store(true, Ordering::Relaxed);
+                                return Err(format!("thread {t} of {threads}: {m}"));
+                            }
+                        }
+                    }
+                    Ok(done)
+                })
+            })
+            .collect();
+        hs.into_iter().map(|h| h.join().unwrap_or_else(|_| Err("a worker thread panicked".into()))).collect()
+    });
+    let mut total = 0;
+    for r in results {
+        total += r?;
+    }
+    Ok(total)
+}
+
+/// A value for a concurrent history: thread `t` owns three days (derived from the seed) and
+/// mostly stays on one of them; the value is of a seeded kind on that day.
+pub fn stress_value(seed: u64, t: usize, sm: &mut SplitMix) -> (usize, i128) {
+    use crate::model::cal::*;
+    let c = cal();
+    let own = |k: u64| c.first as i128 + (mix64(seed ^ mix64((t as u64) << 8 | k)) % c.len() as u64) as i128;
+    // mostly one of the thread's three own days (memo hits), sometimes a fresh one (memo misses)
+    let day = if sm.below(8) == 0 { own(3 + sm.below(1 << 20)) } else { own(sm.below(3)) };
+    let sec = sm.below(86_400) as i128;
+    match sm.below(8) {
+        0 => (0, day),
+        1 => (2, day * US_PER_DAY + sec * US_PER_SEC + sm.below(1_000_000) as i128),
+        2 => (1, sec * US_PER_SEC + sm.below(1_000_000) as i128),
+        3 => (5, (day.abs() % 90_000_000 * US_PER_DAY + sec * US_PER_SEC + sm.below(1_000_000) as i128) * if sec % 2 == 0 { 1 } else { -1 }),
+        4 => (4, day * 37 % 2_136_000_000),
+        _ => (3, day * US_PER_DAY + sec * US_PER_SEC),
     }
 }
